@@ -17,7 +17,7 @@
 (* once, in server order, following next links until none remains") for    *)
 (* EACH generator, whatever the other one does in between.                 *)
 (***************************************************************************)
-EXTENDS Integers, Sequences, FiniteSets, TLC, Json
+EXTENDS Integers, Sequences, FiniteSets, SequencesExt, TLC, Json
 
 CONSTANTS MaxPages, MaxPageSize, Rec
 
@@ -35,8 +35,8 @@ VARIABLES
     hist    \* one record per Pull (only when Rec)
 vars == <<sizes, cur, pos, out, done, reqs, fin, hist>>
 
-RECURSIVE SumTo(_, _)
-SumTo(g, k) == IF k = 0 THEN 0 ELSE sizes[g][k] + SumTo(g, k - 1)
+\* (a fold, not a RECURSIVE definition: the deep result set below has 1200 pages)
+SumTo(g, k) == FoldLeft(LAMBDA a, b : a + b, 0, SubSeq(sizes[g], 1, k))
 NP(g) == Len(sizes[g])
 Total(g) == SumTo(g, NP(g))
 
@@ -77,6 +77,17 @@ Spec == Init /\ [][Next]_vars
 \* a consumer that keeps pulling both generators (in any fair order) and only stops when both have ended
 NextPulling == (\E g \in G : Pull(g)) \/ ((\A g \in G : done[g]) /\ Finish) \/ Terminated
 FairSpec == Init /\ [][NextPulling]_vars /\ \A g \in G : WF_vars(Pull(g))
+
+\* A DEEP result set: generator 1 walks DeepPages pages of one document each (a time-series download: one session
+\* per page), generator 2 has nothing; the consumer drains 2, then 1.  One behaviour, DeepPages + 3 states: the number
+\* of pages a generator can follow is not bounded by anything but the server.
+DeepPages == 1200
+DeepInit ==
+    /\ sizes = (1 :> [i \in 1..DeepPages |-> 1]) @@ (2 :> <<0>>)
+    /\ cur = [g \in G |-> 0] /\ pos = [g \in G |-> 0] /\ out = [g \in G |-> <<>>]
+    /\ done = [g \in G |-> FALSE] /\ reqs = <<>> /\ fin = FALSE /\ hist = <<>>
+DeepNext == (IF ~done[2] THEN Pull(2) ELSE Pull(1)) \/ ((\A g \in G : done[g]) /\ Finish) \/ Terminated
+DeepSpec == DeepInit /\ [][DeepNext]_vars
 
 -----------------------------------------------------------------------------
 Ids(n) == [i \in 1..n |-> i]
